@@ -82,6 +82,10 @@ def validate_filter(cfg):
     return cfg["kind"] in ("laws", "moment", "unique", "dispatch", "mobility", "identical", "thin_solver")
 
 
+def validate_always(cfg):
+    return cfg["kind"] == "emd"  # single-cell moves through real OpenCV are evaluated on the plain import
+
+
 CALLS = []
 RET = []
 
